@@ -10,7 +10,8 @@ package main
 // ++/--, selector and index assignment on m / arr / an alias of m.k, if/else,
 // for-init loops, for-in over an array with k, v, function literals bound to a
 // variable and called later (closures reading and writing a, b, c, m, arr and
-// their own parameter), a closure nested in a closure, bounded recursion
+// their own parameter), a closure nested in a closure, a function returning a
+// closure over its parameter (the closure outlives the call), bounded recursion
 // through the defining variable, a reference to a name that is out of scope
 // (compile error in every placement) and - inside loops - a closure over a loop
 // variable stored into arr and possibly called after the loop (the documented
@@ -45,26 +46,34 @@ type fam struct {
 	// of budget is spent on a call while it has not been called yet
 	pending      string
 	pendingDepth int
-	fnDepth      int // block depth of the body of the innermost function
+	fnDepth      int  // block depth of the body of the innermost function
+	fGetter      bool // the visible f returns a closure over its parameter (call sites call the result)
 }
 
-// callee picks a callable function; calling the pending one settles it.
-func (g *fam) callee() gen.Expr {
+// call builds a call of a visible function with a plain argument; calling the
+// pending function settles it. A function that returns a closure over its
+// parameter (the closure outlives the frame that declared the variable) has
+// the result called on the spot.
+func (g *fam) call() gen.Expr {
 	n := g.pick(g.fns)
 	if n == g.pending {
 		g.pending = ""
 	}
-	return gen.I(n)
+	c := gen.C(gen.I(n), g.atom())
+	if n == fnNames[0] && g.fGetter {
+		return gen.C(c)
+	}
+	return c
 }
 
 type famState struct {
 	rd, wr, inc, fns []string
-	alias            bool
+	alias, fGetter   bool
 }
 
-func (g *fam) save() famState { return famState{g.rd, g.wr, g.inc, g.fns, g.alias} }
+func (g *fam) save() famState { return famState{g.rd, g.wr, g.inc, g.fns, g.alias, g.fGetter} }
 func (g *fam) restore(s famState) {
-	g.rd, g.wr, g.inc, g.fns, g.alias = s.rd, s.wr, s.inc, s.fns, s.alias
+	g.rd, g.wr, g.inc, g.fns, g.alias, g.fGetter = s.rd, s.wr, s.inc, s.fns, s.alias, s.fGetter
 }
 
 func with(xs []string, more ...string) []string {
@@ -171,8 +180,7 @@ func (g *fam) rhs() gen.Expr {
 	case "arrvar":
 		return &gen.Index{X: gen.I("arr"), I: gen.I(g.pick(g.rd))}
 	case "call":
-		f := g.callee()
-		return gen.C(f, g.atom())
+		return g.call()
 	default:
 		return gen.C(arr0())
 	}
@@ -350,12 +358,10 @@ func (g *fam) body(loopVars []string) []gen.Stmt {
 				g.alias = isSel && g.lean < 2
 			}
 		case "call":
-			f := g.callee()
-			out = append(out, &gen.ExprStmt{X: gen.C(f, g.atom())})
+			out = append(out, &gen.ExprStmt{X: g.call()})
 		case "assigncall":
 			v := gen.I(g.pick(g.wr))
-			f := g.callee()
-			out = append(out, gen.Set(v, gen.C(f, g.atom())))
+			out = append(out, gen.Set(v, g.call()))
 		case "undeclared":
 			// c is not in scope here: a compile error wherever the program is placed
 			g.undecl = true
@@ -413,12 +419,19 @@ func (g *fam) body(loopVars []string) []gen.Stmt {
 				fb = []gen.Stmt{&gen.If{Cond: gen.B(">", gen.I(param), gen.N("0")), Then: fb}}
 				g.fns = nil // a nested function is local to the if block
 			}
-			// trailing return: none | a | the parameter | the result of the nested function
+			// trailing return: none | a | the parameter | the result of the nested function | a closure
 			rk := []string{"a"}
 			if len(fb) > 0 {
 				rk = append(rk, "none")
 				if g.lean < 1 {
 					rk = append(rk, "param")
+				}
+			}
+			// (outermost functions without body only) a closure over the parameter, which outlives the call
+			if g.fdepth == 1 && g.lean < 2 && len(fb) == 0 {
+				rk = append(rk, "getter")
+				if g.lean < 1 {
+					rk = append(rk, "counter")
 				}
 			}
 			if len(g.fns) > 0 {
@@ -427,7 +440,14 @@ func (g *fam) body(loopVars []string) []gen.Stmt {
 					rk = []string{"call"} // the nested function has not been called yet
 				}
 			}
+			getter := false
 			switch g.pick(rk) {
+			case "getter":
+				getter = true
+				fb = append(fb, &gen.Return{X: &gen.FuncLit{Body: []gen.Stmt{&gen.Return{X: gen.I(param)}}}})
+			case "counter":
+				getter = true
+				fb = append(fb, &gen.Return{X: &gen.FuncLit{Body: []gen.Stmt{&gen.IncDec{X: gen.I(param), Op: "++"}, &gen.Return{X: gen.I(param)}}}})
 			case "a":
 				fb = append(fb, &gen.Return{X: gen.I("a")})
 			case "param":
@@ -441,8 +461,11 @@ func (g *fam) body(loopVars []string) []gen.Stmt {
 			g.restore(s)
 			out = append(out, gen.Def(fname, &gen.FuncLit{Params: []string{param}, Body: fb}))
 			g.fns = with(g.fns, fname)
+			if fname == fnNames[0] {
+				g.fGetter = getter
+			}
 			g.pending, g.pendingDepth = outerPending, outerPendingDepth
-			if cost > 0 || g.lean > 3 {
+			if cost > 0 || g.lean > 3 || getter {
 				g.pending, g.pendingDepth = fname, g.depth
 			}
 		}
